@@ -12,8 +12,16 @@ class C19(Prop):
     id = "C19"
     title = "Cross-thread notifications are never lost or merged; shutdown terminates"
     lean_modules = ["NV.C19.Props", "NV.C19.Witness"]
-    theorems = []
-    witness_theorems = []
+    theorems = ["NV.C19.posts_delivered_exactly_once", "NV.C19.posts_multiset_preserved",
+                "NV.C19.post_refused_only_when_full",
+                "NV.C19.queue_fifo_exactly_once", "NV.C19.queue_drop_policy", "NV.C19.queue_dequeue_oldest",
+                "NV.C19.timed_join_bounded", "NV.C19.timed_join_progress",
+                "NV.C19.timer_stop_terminates", "NV.C19.timer_stop_reaches_join", "NV.C19.no_callback_after_stop"]
+    # Lean-checked counterexamples of the full statements on the code as it was before the fix: commits
+    witness_theorems = ["NV.C19.Old.eventfd_merges_posts", "NV.C19.Old.not_postsDeliveredFull",
+                        "NV.C19.Old.eventfd_loses_zero_post", "NV.C19.Old.posts_delivered_partial",
+                        "NV.C19.Old.join_enters_pthread_join_early", "NV.C19.Old.not_timedJoinBoundedFull",
+                        "NV.C19.Old.join_hangs"]
     consts = [("completionRingSize", "COMPLETION_RING_SIZE"),
               ("queueDropOldest", "ASYNC_QUEUE_DROP_OLDEST"),
               ("queueBlockWriter", "ASYNC_QUEUE_BLOCK_WRITER"),
@@ -26,8 +34,8 @@ class C19(Prop):
     # the ring size is a #define private to the epoll back end: the probe includes the .c file itself
     const_headers = ["lib/async/async_runtime_epoll.c", "lib/async/async_queue.h", "lib/async/async_worker.h",
                      "lib/port/timer.h"]
-    quick_n = 260
-    thorough_n = 2500
+    quick_n = 500
+    thorough_n = 4000
     search_n = 400
     design_ref = "5/C19"
     technique = ("Lean 4 proof over all schedules (induction on the interleaving of atomic actions) + translator-generated "
@@ -236,7 +244,7 @@ class C19(Prop):
         return out
 
     def gen_case(self, rng, cid, tier):
-        kind = rng.weighted([("rt", 5), ("q", 6), ("w", 4), ("t", 1), ("mix", 2), ("mt", 1)])
+        kind = rng.weighted([("rt", 5), ("q", 6), ("w", 4), ("t", 2), ("mix", 2), ("mt", 2)])
         if kind == "rt":
             L = self.gen_rt(rng, rng.range(4, 40))
         elif kind == "q":
@@ -263,6 +271,19 @@ class C19(Prop):
 
     def generate(self, rng, n, tier):
         return [self.gen_case(rng, "g%d" % i, tier) for i in range(n)]
+
+    def extra_checks(self, ctx, tier, rng):
+        """the oracle accepts every trace of the model (tested here on fresh schedules; the proved theorems are the
+        per-mechanism statements in NV/C19/Props.lean)"""
+        cases = self.generate(rng, 150 if tier == "quick" else 1500, "model-only")
+        model = {k: self.canon(v) for k, v in self.run_model(ctx, cases).items()}
+        jd = self.run_judge(ctx, cases, model)
+        bad = [(c, jd.get(c.id)) for c in cases if jd.get(c.id) != ["ok"]]
+        if bad:
+            c, v = bad[0]
+            return [{"kind": "obligation-broken", "name": "judge rejects a model trace",
+                     "detail": "%s\n%s" % (v, "\n".join(c.lines))}]
+        return []
 
     def histogram(self, cases, impl):
         h = {}
